@@ -519,6 +519,49 @@ func main() {
 		c.DistinctEnum(cnt)
 		c.Count("ipv4_addresses", cnt)
 	})
+	// (7b) results are fresh values: scribbling over a returned slice must not change what a
+	// later call returns (a shared fallback slice or cached result would)
+	c.Section("ipv4-result-ownership", false, func() {
+		texts := []string{"", "1.2.3", "not-an-ip", "1.2.3.4.5", "300.1.2.3", "a.b.c.d", "10.20.30.40", "0.0.0.0", "255.255.255.255", " ", "..."}
+		var cnt int64
+		for round := 0; round < 3; round++ {
+			for _, tx := range texts {
+				first := iputil.ToBytes(tx)
+				want := append([]byte(nil), first...)
+				for i := range first {
+					first[i] ^= 0xa5 // the caller owns what it was given
+				}
+				again := iputil.ToBytes(tx)
+				if !bytes.Equal(again, want) {
+					c.Failf("iputil.ToBytes:result-shared", map[string]interface{}{"text": tx}, "ToBytes(%q) returned %v, then %v after the caller modified the first result", tx, want, again)
+				}
+				if len(want) != 4 {
+					c.Failf("iputil.ToBytes:length", map[string]interface{}{"text": tx}, "ToBytes(%q) returned %d bytes", tx, len(want))
+				}
+				for _, other := range texts {
+					o := iputil.ToBytes(other)
+					o2 := iputil.ToBytes(other)
+					if !bytes.Equal(o, o2) {
+						c.Failf("iputil.ToBytes:impure", map[string]interface{}{"text": other}, "two calls of ToBytes(%q) differ: %v %v", other, o, o2)
+					}
+				}
+				cnt++
+			}
+			v := int32(0x0a141e28)
+			fb := iputil.ToBytesFrInt(v)
+			fb[0] = 99
+			if b2 := iputil.ToBytesFrInt(v); b2[0] != 0x0a {
+				c.Failf("iputil.ToBytesFrInt:result-shared", nil, "ToBytesFrInt result is shared between calls")
+			}
+			if s1, s2 := iputil.ToString(nil), iputil.ToString([]byte{}); s1 != "0.0.0.0" || s2 != "0.0.0.0" {
+				c.Failf("iputil.ToString:empty", nil, "ToString(nil)=%q ToString(empty)=%q", s1, s2)
+			}
+		}
+		c.Eval(cnt)
+		c.DistinctEnum(int64(len(texts)))
+		c.Count("result_ownership_probes", cnt)
+	})
+
 	// (8) the same oracles from many goroutines at once: these are pure functions, so concurrent
 	// callers on unrelated inputs must get the same answers (a shared scratch buffer, a cached
 	// result or a pooled object would show here and nowhere in the sequential sections)
